@@ -1,1 +1,90 @@
 use super::*;
+use crate::constants::ErrorCode;
+
+const ALL_KINDS: [std::io::ErrorKind; 39] = {
+    use std::io::ErrorKind::*;
+    [
+        NotFound, PermissionDenied, ConnectionRefused, ConnectionReset, HostUnreachable, NetworkUnreachable,
+        ConnectionAborted, NotConnected, AddrInUse, AddrNotAvailable, NetworkDown, BrokenPipe, AlreadyExists,
+        WouldBlock, NotADirectory, IsADirectory, DirectoryNotEmpty, ReadOnlyFilesystem, StaleNetworkFileHandle,
+        InvalidInput, InvalidData, TimedOut, WriteZero, StorageFull, NotSeekable, QuotaExceeded, FileTooLarge,
+        ResourceBusy, ExecutableFileBusy, Deadlock, CrossesDevices, TooManyLinks, InvalidFilename,
+        ArgumentListTooLong, Interrupted, Unsupported, UnexpectedEof, OutOfMemory, Other,
+    ]
+};
+
+/// Environment contract D: the error kinds a dead / refusing / silent TCP peer
+/// produces through this crate's clients on Linux (connect refused; reset or
+/// aborted connection; write after the reader shut the socket down = EPIPE;
+/// response channel closed = ConnectionAborted; EOF; per-call timeout).
+fn in_transport_set(k: std::io::ErrorKind) -> bool {
+    use std::io::ErrorKind::*;
+    matches!(k, ConnectionRefused | ConnectionReset | ConnectionAborted | BrokenPipe | NotConnected | UnexpectedEof | TimedOut)
+}
+
+/// Kinds that are plainly not transport failures (bad arguments / undecodable
+/// data / resource exhaustion of the local process).
+fn plainly_not_transport(k: std::io::ErrorKind) -> bool {
+    use std::io::ErrorKind::*;
+    matches!(k, InvalidInput | InvalidData | Unsupported | OutOfMemory)
+}
+
+//@ name: c19_async_fleet_retry_classification_io
+//@ prop: C19
+//@ tier: quick
+//@ clause: every transport-level failure a dead, refusing or silent node produces (refused, reset, aborted, broken pipe after the connection died while idle, not connected, EOF, timed out) is classified retryable, so the cached client is invalidated and a later attempt reconnects; plainly non-transport I/O errors are not retried
+//@ funcs: async_fleet::is_retryable_error
+//@ symbolic: the io::ErrorKind (selector over all 39 stable kinds)
+//@ bounds: simple (kind-only) io::Error values
+//@ oracle: environment contract D (listed in the harness) => true; {InvalidInput, InvalidData, Unsupported, OutOfMemory} => false
+//@ assumes: D is an assumption about Linux sockets + client.rs/async_client.rs (validated once natively by findings/C19_idle_close_demo.rs)
+#[kani::proof]
+fn c19_async_fleet_retry_classification_io() {
+    let i: usize = kani::any();
+    kani::assume(i < ALL_KINDS.len());
+    let k = ALL_KINDS[i];
+    let e = RepeError::Io(std::io::Error::from(k));
+    let r = is_retryable_error(&e);
+    if in_transport_set(k) {
+        assert!(r, "a transport-level failure is not retried: the dead cached client is never invalidated and the node stays wedged");
+    }
+    if plainly_not_transport(k) {
+        assert!(!r, "a non-transport I/O error is retried");
+    }
+    kani::cover!(k == std::io::ErrorKind::BrokenPipe);
+    std::mem::forget(e);
+}
+
+//@ name: c19_async_fleet_retry_classification_app
+//@ prop: C19
+//@ tier: quick
+//@ clause: an application error (any error code, any message) and the non-transport protocol errors are never retried
+//@ funcs: async_fleet::is_retryable_error
+//@ symbolic: error variant (selector), error code (all 11 codes), numeric payloads (full width)
+//@ bounds: message strings are 0 or 2 bytes
+//@ oracle: false for ServerError / ResponseIdMismatch / UnexpectedBodyFormat / MessageTooLarge / UnknownEnumValue
+#[kani::proof]
+fn c19_async_fleet_retry_classification_app() {
+    let code = match kani::any::<u8>() % 11 {
+        0 => ErrorCode::Ok,
+        1 => ErrorCode::VersionMismatch,
+        2 => ErrorCode::InvalidHeader,
+        3 => ErrorCode::InvalidQuery,
+        4 => ErrorCode::InvalidBody,
+        5 => ErrorCode::ParseError,
+        6 => ErrorCode::MethodNotFound,
+        7 => ErrorCode::Timeout,
+        8 => ErrorCode::ResourceExhausted,
+        9 => ErrorCode::InternalError,
+        _ => ErrorCode::ApplicationErrorBase,
+    };
+    let e = match kani::any::<u8>() % 5 {
+        0 => RepeError::ServerError { code, message: if kani::any() { String::new() } else { String::from("no") } },
+        1 => RepeError::ResponseIdMismatch { expected: kani::any(), got: kani::any() },
+        2 => RepeError::UnexpectedBodyFormat { expected: crate::constants::BodyFormat::Json, got: kani::any() },
+        3 => RepeError::MessageTooLarge { size: kani::any(), limit: kani::any() },
+        _ => RepeError::UnknownEnumValue(kani::any()),
+    };
+    assert!(!is_retryable_error(&e), "an application / protocol-level error reply is retried");
+    std::mem::forget(e);
+}
